@@ -148,6 +148,8 @@ static int iterPolyReset(MPT_INTERFACE(iterator) *it)
 	MPT_STRUCT(iteratorPolynom) *d = MPT_baseaddr(iteratorPolynom, it, _it);
 	MPT_STRUCT(buffer) *buf;
 	d->pos = 0;
+	/* invalidate value of previous position */
+	d->val._type = 0;
 	if ((buf = d->grid._buf)) {
 		return buf->_used / sizeof(double);
 	}
